@@ -877,7 +877,7 @@ class DATETIME(NUMERIC):
         at = fix(adatetime(year, month, day, hour, minute, second,
                            microsecond))
         if is_void(at):
-            raise Exception("%r is not a parseable date" % qstring)
+            raise ValueError("%r is not a parseable date" % qstring)
         return at
 
     def parse_query(self, fieldname, qstring, boost=1.0):
@@ -901,16 +901,23 @@ class DATETIME(NUMERIC):
                     boost=1.0):
         from whoosh import query
 
+        from whoosh.qparser.common import QueryParserError
+
         if start is None and end is None:
             return query.Every(fieldname, boost=boost)
 
-        if start is not None:
-            startdt = self._parse_datestring(start).floor()
-            start = datetime_to_long(startdt)
+        try:
+            if start is not None:
+                startdt = self._parse_datestring(start).floor()
+                start = datetime_to_long(startdt)
 
-        if end is not None:
-            enddt = self._parse_datestring(end).ceil()
-            end = datetime_to_long(enddt)
+            if end is not None:
+                enddt = self._parse_datestring(end).ceil()
+                end = datetime_to_long(enddt)
+        except (ValueError, OverflowError):
+            e = sys.exc_info()[1]
+            raise QueryParserError("Range %r to %r is not a valid date range"
+                                   " (%s)" % (start, end, e))
 
         return query.NumericRange(fieldname, start, end, boost=boost)
 
